@@ -29,3 +29,67 @@ package template
 
 //@ define pkgPathOf(p) = ite(p == nil, "", stripSpec(p.pkg.Path()))
 //@ define stripSpec(s) = uf("registry.stripVendorPath", String, s)
+
+// ---------------------------------------------------------------------------
+// Contract schema for the code emitted by moqTemplate (stage 2). The generator
+// cannot be given a Go-level contract for text it emits, so the contract is
+// stated for the emitted functions: on every run the real moq is executed on
+// the schema packages of /verif/schema, and each emitted function is verified
+// against the clauses below by the same symbolic executor (all argument
+// values, all prior mock states, all behaviours of the user function, all
+// schedules via the lock-permission discipline). A clause the verifier does
+// not implement, or an implemented obligation without a clause here, is an error.
+//
+// Vocabulary: M = interface method, mock.MFunc its function field, mock.calls.M
+// its record list, mock.lockM the lock protecting that list.
+//
+//@ schema any no-runtime-panic {C04,C19} no nil dereference, index or slice-bounds failure for any state of the mock, the zero value included
+//@ schema any no-loops {C03,C06} emitted functions are loop free
+//@ schema any no-go-defer-recover {C03,C06} no go, defer, recover, select, send: the user function runs on the caller's goroutine and its panic propagates unchanged
+//@ schema any perm-load {C05} every read of mock.calls.M happens while lockM is held (shared or exclusive)
+//@ schema any perm-store {C05} every write of mock.calls.M happens while lockM is held exclusively
+//@ schema any perm-append {C05} append to a list loaded from mock.calls.M (may write the backing array in place) only while lockM is held exclusively
+//@ schema any no-other-writes {C03,C05} no field of the mock other than calls.M is written
+//@ schema any lock-is-own-field {C05,C06} Lock/RLock/Unlock/RUnlock are applied to lock fields of the receiver only
+//@ schema any lock-protects-a-record-list {C05} lockM exists only together with calls.M
+//@ schema any unlock-matches-lock {C05,C06} Unlock releases a held exclusive lock, RUnlock a held shared lock
+//@ schema any only-rwmutex-operations {C05} no other synchronisation primitive is used
+//@ schema any no-lock-nesting {C06} no lock is acquired while another one is held (no lock-order cycle is possible)
+//@ schema any no-lock-held-at-exit {C06} every return and panic exit holds no lock
+//@ schema any no-lock-held-at-invoke {C06} no lock is held when the user function is called
+//@ schema any touches-only-own-list {C04,C05,C08} a function takes only the locks of the lists it is allowed to change
+//@ schema any snapshots-unchanged {C04} a critical section writes no cell of any slice returned earlier by an accessor
+//@ schema any snapshot-invariant-preserved {C04} after the section the list is nil, in a fresh array, or the same array grown in place
+//
+//@ schema method record-appended-once {C04,C05} the critical section of M makes calls.M exactly one record longer
+//@ schema method record-prefix-kept {C04,C05} earlier records are unchanged and keep their order
+//@ schema method record-holds-arguments {C04} field k of the new record equals parameter k
+//@ schema method recorded-before-invoke {C04} the record is appended and the lock released before mock.MFunc is called
+//@ schema method delegates-when-func-set {C03} a return without calling mock.MFunc happens only if it is nil
+//@ schema method invoke-only-when-func-set {C03,C07} a function value is called only if mock.MFunc is not nil
+//@ schema method invoke-at-most-once {C03} at most one function value is called on any path
+//@ schema method invoke-callee-is-func-field {C03} the function called is the value of mock.MFunc, no other configured function
+//@ schema method invoke-passes-arguments {C03} argument k is parameter k; a variadic tail is passed as the same slice
+//@ schema method results-forwarded {C03} the results of mock.MFunc are returned unchanged
+//@ schema method panic-only-when-func-nil {C07} a panic is raised only if mock.MFunc is nil
+//@ schema method panic-before-any-effect {C07} the panic precedes every lock, write and call
+//@ schema method panic-message-identifies {C07} the panic value names the mock type, MFunc and Interface.M
+//@ schema method nil-func-panics-by-default {C07} without -stub a nil mock.MFunc never returns normally
+//@ schema method stub-never-panics {C07} with -stub no panic is reachable
+//@ schema method stub-call-recorded {C04,C07} with -stub a call with nil mock.MFunc is recorded like any other
+//@ schema method stub-returns-zero-values {C07} with -stub a call with nil mock.MFunc returns the zero value of every result
+//
+//@ schema accessor accessor-leaves-list-unchanged {C04,C05} MCalls() does not change calls.M
+//@ schema accessor accessor-returns-current-list {C04} MCalls() returns calls.M as read under lockM: same array, offset and length
+//@ schema accessor accessor-capacity-not-beyond-list {C04} the returned slice has no capacity beyond the list's
+//@ schema accessor accessor-never-panics {C04} MCalls() cannot panic
+//@ schema accessor accessor-invokes-nothing {C03,C04} MCalls() calls no function value
+//
+//@ schema reset reset-empties-list {C08} the critical section leaves the list empty
+//@ schema reset reset-clears-its-list {C08} ResetMCalls() empties calls.M
+//@ schema reset reset-never-panics {C08} reset methods cannot panic
+//@ schema reset reset-invokes-nothing {C08} reset methods call no function value
+//@ schema resetall reset-empties-list {C08} every critical section leaves its list empty
+//@ schema resetall resetall-clears-every-list {C08} ResetCalls() empties calls.M for every method M
+//@ schema resetall reset-never-panics {C08} reset methods cannot panic
+//@ schema resetall reset-invokes-nothing {C08} reset methods call no function value
